@@ -53,8 +53,12 @@ theorem depth_guard_premise : OttoVerif.C18.Gen.scopeWriters = ["runtime.go:ente
 /-! Regenerated facts (go/types over the current sources of package otto) -/
 
 /-- P1: no built-in dereferences the receiver's object without converting or checking it
-    (`call.This.object()` is nil for a primitive receiver) -/
-theorem no_raw_receiver_object : Gen.rawReceiverObject = [] := by decide
+    (`call.This.object()` is nil for a primitive receiver).  The two remaining uses are the `caller`
+    getters of function objects (since fix ad5fc82 they read the receiver of the call they serve):
+    the pointer is only COMPARED with the functions of the active frames, never dereferenced
+    (`Object.getOwnPropertyDescriptor(f, "caller").get.call(5)` is null). -/
+theorem no_raw_receiver_object : Gen.rawReceiverObject =
+    [("runtime.newNativeFunctionObject", "This.object()"), ("runtime.newNodeFunctionObject", "This.object()")] := by decide
 
 /-- P2: the constant-index reads of the argument list are exactly the ones known to sit behind a
     length test (Math.max/min after `case 0/1`, Object.assign after the length check,
